@@ -86,6 +86,9 @@ pub enum Val {
     Exts(u8),
     Dir(bool),
     StringSet(Vec<Vec<u8>>),
+    /// PackedDnaStringSet given by its public fields: packed bases, start table, length table
+    /// (offsets as a store of more than 2^32 bases would hold them included)
+    StringSetRaw(Vec<u8>, Vec<u64>, Vec<u32>),
     /// Lmer with 1, 2 or 3 storage words
     Lmer(u8, Vec<u8>),
     BaseGraph(GraphSpec),
@@ -282,16 +285,16 @@ macro_rules! all_kmer_types {
     ($name:expr, $f:ident, $args:tt) => {
         with_k!(
             $name,
-            [Kmer2, Kmer3, Kmer4, Kmer5, Kmer6, Kmer8, Kmer10, Kmer12, Kmer14, Kmer15, Kmer16, Kmer20, Kmer24, Kmer30, KmerK31, Kmer32, Kmer40, Kmer48, Kmer64],
+            [Kmer2, Kmer3, Kmer4, Kmer5, Kmer6, Kmer8, Kmer10, Kmer12, Kmer14, Kmer15, Kmer16, Kmer20, Kmer24, Kmer30, KmerK31, Kmer32, Kmer40, Kmer48, Kmer64, Kmer4v, Kmer8v, Kmer16v, Kmer32v, Kmer64v, Kmer6w, Kmer12w, Kmer20w, Kmer7u, Kmer33u, Kmer80u],
             $f,
             $args
         )
     };
 }
 
-pub const ALL_KTYPES: [&str; 19] = [
+pub const ALL_KTYPES: [&str; 30] = [
     "Kmer2", "Kmer3", "Kmer4", "Kmer5", "Kmer6", "Kmer8", "Kmer10", "Kmer12", "Kmer14", "Kmer15", "Kmer16", "Kmer20", "Kmer24", "Kmer30", "KmerK31", "Kmer32",
-    "Kmer40", "Kmer48", "Kmer64",
+    "Kmer40", "Kmer48", "Kmer64", "Kmer4v", "Kmer8v", "Kmer16v", "Kmer32v", "Kmer64v", "Kmer6w", "Kmer12w", "Kmer20w", "Kmer7u", "Kmer33u", "Kmer80u",
 ];
 
 impl Harness for SerdeCheck {
@@ -330,6 +333,24 @@ impl Harness for SerdeCheck {
             }
             3 => Val::Exts(rng.below(256) as u8),
             4 => Val::Dir(rng.chance(1, 2)),
+            5 if rng.chance(1, 3) => {
+                let n = rng.range(1, 5);
+                let l = rng.range(0, 90);
+                let seq = dna::random_seq(rng, l, &[0, 1, 2, 3]);
+                let wide = rng.chance(1, 2);
+                let start: Vec<u64> = (0..n)
+                    .map(|_| match rng.below(if wide { 6 } else { 2 }) {
+                        0 => rng.below(l + 1) as u64,
+                        1 => rng.below(1 << 20) as u64,
+                        2 => (1u64 << 32) + rng.below(1000) as u64,
+                        3 => (1u64 << 32) - 1 - rng.below(3) as u64,
+                        4 => (1u64 << 31) + rng.below(1000) as u64,
+                        _ => (rng.next_u64() >> rng.range(1, 30)) | (1 << 32),
+                    })
+                    .collect();
+                let length: Vec<u32> = (0..n).map(|_| if rng.chance(1, 6) { u32::MAX - rng.below(3) as u32 } else { rng.below(70_000) as u32 }).collect();
+                Val::StringSetRaw(seq, start, length)
+            }
             5 => {
                 let n = rng.range(0, 6);
                 Val::StringSet((0..n).map(|_| { let l = rng.range(0, 70); dna::random_seq(rng, l, &[0, 1, 2, 3]) }).collect())
@@ -389,6 +410,28 @@ impl Harness for SerdeCheck {
                         if a.get(i) != b.get(i) || a.get(i).to_dna_string() != b.get(i).to_dna_string() {
                             return Err(format!("sequence {} differs", i));
                         }
+                    }
+                    Ok(())
+                })
+            }
+            Val::StringSetRaw(seq, start, length) => {
+                if start.iter().any(|x| *x >= 1 << 32) {
+                    rec.count("reach_store_offsets_beyond_2p32");
+                }
+                let s = PackedDnaStringSet {
+                    sequence: DnaString::from_bytes(seq),
+                    start: start.iter().map(|x| *x as usize).collect(),
+                    length: length.clone(),
+                };
+                round_trip("serde PackedDnaStringSet (public fields)", &s, c, rec, &|a: &PackedDnaStringSet, b: &PackedDnaStringSet| {
+                    if a.sequence != b.sequence {
+                        return Err("packed bases differ".into());
+                    }
+                    if a.start != b.start {
+                        return Err(format!("start table {:?} came back as {:?}", a.start, b.start));
+                    }
+                    if a.length != b.length {
+                        return Err(format!("length table {:?} came back as {:?}", a.length, b.length));
                     }
                     Ok(())
                 })
@@ -477,7 +520,7 @@ impl Harness for SerdeCheck {
         out
     }
     fn rule(&self) -> String {
-        "case = (value: k-mer of one of 19 types | DnaString | Exts | Dir | PackedDnaStringSet | BaseGraph | DebruijnGraph from finish()/finish_serial() \
+        "case = (value: k-mer of one of 30 types (incl. user-declared VarIntKmer widths and a user-implemented Kmer of K = 7, 33, 80) | DnaString | Exts | Dir | PackedDnaStringSet | BaseGraph | DebruijnGraph from finish()/finish_serial() \
          on a pipeline-built graph, writer plan, reader plan); plans: clean, transparent (short I/O and/or Interrupted), hard (Err/Ok(0) at a byte offset, \
          flush-only error, early EOF); non-trivial = serialised form > 8 bytes and at least one stream deviated from the fault-free behaviour; \
          distinct = distinct stream traces (digest of every accept/return decision)"
@@ -525,6 +568,26 @@ pub struct ExportCase {
     pub parallel_finish: bool,
     pub op: ExportOp,
     pub plan: IoPlan,
+    /// what the caller's payload formatter hands to the JSON export: 0 the number itself, 1 a string
+    /// with backslashes and non-ASCII text, 2 a string with quotes and control characters, 3 an
+    /// object, 4 null / float / array by value
+    #[serde(default)]
+    pub payload_kind: u8,
+}
+
+/// The caller-supplied payload formatter of the JSON export.
+pub fn json_payload(kind: u8, d: &u16) -> Value {
+    match kind {
+        1 => Value::String(format!("lbl\\{}\\n/\u{e9}\u{1F9EC}", d)),
+        2 => Value::String(format!("q\"{}\"\n\t\u{1}\\", d)),
+        3 => json!({"count": *d, "path": "C:\\tmp\\x", "nested": [*d, null, true, {"k": "\"v\""}]}),
+        4 => match d % 3 {
+            0 => Value::Null,
+            1 => json!(1.5e300),
+            _ => json!([*d, "x"]),
+        },
+        _ => json!(*d),
+    }
 }
 
 pub struct ExportCheck;
@@ -714,7 +777,7 @@ pub fn check_gfa<K: Kmer, D: Debug>(text: &[u8], g: &DebruijnGraph<K, D>, tags: 
     Ok(())
 }
 
-pub fn check_json<K: Kmer>(text: &[u8], g: &DebruijnGraph<K, u16>, rest: &Option<Value>) -> Result<(), Violation> {
+pub fn check_json<K: Kmer>(text: &[u8], g: &DebruijnGraph<K, u16>, rest: &Option<Value>, payload_kind: u8) -> Result<(), Violation> {
     let site = "JSON export";
     let v: Value = serde_json::from_slice(text).map_err(|e| {
         let t = String::from_utf8_lossy(text);
@@ -744,7 +807,7 @@ pub fn check_json<K: Kmer>(text: &[u8], g: &DebruijnGraph<K, u16>, rest: &Option
     for nd in nodes.iter() {
         let i: usize = as_id(nd.get("id")).unwrap().parse().unwrap();
         let len_ok = nd.get("L").map(|x| x.as_u64() == Some(g.get_node(i).len() as u64)).unwrap_or(true);
-        let d_ok = nd.get("D").map(|x| *x == json!(*g.get_node(i).data())).unwrap_or(true);
+        let d_ok = nd.get("D").map(|x| *x == json_payload(payload_kind, g.get_node(i).data())).unwrap_or(true);
         if !len_ok || !d_ok {
             return Err(Violation::new("json-nodes", site, format!("node entry {} is {}", i, nd)));
         }
@@ -903,13 +966,15 @@ fn run_export<K: Kmer + Send + Sync>(c: &ExportCase, rec: &mut Rec) -> Result<()
                 _ => None,
             };
             let mut clean: Vec<u8> = Vec::new();
-            let r0 = guarded(|| g.to_json_rest(|d: &u16| json!(*d), &mut clean, rest.clone()));
+            let pk = c.payload_kind;
+            rec.choice("json_payload_kind", pk as u64, pk == 0);
+            let r0 = guarded(|| g.to_json_rest(|d: &u16| json_payload(pk, d), &mut clean, rest.clone()));
             if let Err((loc, msg)) = r0 {
                 return Err(Violation::new("panic", "to_json_rest", format!("panicked on a Vec sink at {}: {}", loc, msg)));
             }
-            check_json(&clean, &g, &rest)?;
+            check_json(&clean, &g, &rest, pk)?;
             let mut w = SimWriter::new(c.plan.clone());
-            let res = guarded(|| g.to_json_rest(|d: &u16| json!(*d), &mut w, rest.clone()));
+            let res = guarded(|| g.to_json_rest(|d: &u16| json_payload(pk, d), &mut w, rest.clone()));
             let data = w.finish(rec);
             match res {
                 Ok(()) => {
@@ -1203,6 +1268,7 @@ impl Harness for ExportCheck {
             parallel_finish: rng.chance(1, 2),
             op,
             plan: gen_plan(rng, true),
+            payload_kind: if rng.chance(1, 3) { rng.range(1, 4) as u8 } else { 0 },
         }
     }
     fn run(&self, c: &ExportCase, rec: &mut Rec) -> Result<(), Violation> {
@@ -1236,6 +1302,11 @@ impl Harness for ExportCheck {
         if c.op == ExportOp::JsonRest(true) {
             let mut x = c.clone();
             x.op = ExportOp::JsonRest(false);
+            out.push(x);
+        }
+        if c.payload_kind != 0 {
+            let mut x = c.clone();
+            x.payload_kind = 0;
             out.push(x);
         }
         out
